@@ -198,6 +198,18 @@ impl Sess {
             "raw" => {
                 let fsts: Vec<Fst<&[u8]>> = supersets.iter().map(|b| Fst::new(&b[..]).unwrap()).collect();
                 let mut b = fst::raw::OpBuilder::new();
+                // the other ways of filling a builder, when every input is a whole FST
+                let all_whole = inputs.iter().all(|i| matches!(i.kind, InKind::Whole));
+                if all_whole && o % 4 == 1 {
+                    b = fsts.iter().collect();
+                } else if all_whole && o % 4 == 2 {
+                    b.extend(fsts.iter());
+                } else if all_whole && o % 4 == 3 && !fsts.is_empty() {
+                    b = fsts[0].op();
+                    for f in &fsts[1..] {
+                        b = b.add(f);
+                    }
+                } else {
                 for (j, inp) in inputs.iter().enumerate() {
                     match inp.kind {
                         InKind::Whole => b.push(&fsts[j]),
@@ -209,11 +221,23 @@ impl Sess {
                         InKind::Search => b.push(fsts[j].search(auts[j].clone().unwrap())),
                     }
                 }
+                }
                 run_op!(b, ())
             }
             "map" => {
                 let maps: Vec<Map<&[u8]>> = supersets.iter().map(|b| Map::new(&b[..]).unwrap()).collect();
                 let mut b = fst::map::OpBuilder::new();
+                let all_whole = inputs.iter().all(|i| matches!(i.kind, InKind::Whole));
+                if all_whole && o % 4 == 1 {
+                    b = maps.iter().collect();
+                } else if all_whole && o % 4 == 2 {
+                    b.extend(maps.iter());
+                } else if all_whole && o % 4 == 3 && !maps.is_empty() {
+                    b = maps[0].op();
+                    for m in &maps[1..] {
+                        b = b.add(m);
+                    }
+                } else {
                 for (j, inp) in inputs.iter().enumerate() {
                     match inp.kind {
                         InKind::Whole => b.push(&maps[j]),
@@ -224,6 +248,7 @@ impl Sess {
                         }
                         InKind::Search => b.push(maps[j].search(auts[j].clone().unwrap())),
                     }
+                }
                 }
                 run_op!(b, ())
             }
